@@ -50,6 +50,7 @@ class ExpandingDriver:
         self.pushes = 0
         self.window = {}  # key -> effective-insertion index of its latest real insertion
         self.inserted = set()  # keys that were certainly inserted (expanding filters never forget them)
+        self._nh = None
         self.feats = set()
         self.dir = None
         self.nfile = 0
@@ -83,7 +84,17 @@ class ExpandingDriver:
             # can be issued WITHOUT a look-up right before it (a look-up would reset any per-lookup cache in the library)
             present = True
             self.feats.add("add_without_preceding_lookup")
-        ctx.call(self.noexc, o.add, key, force)
+        if self.add_calls % 4 == 3:
+            # precomputed-hash entry point, with a list computed for a larger depth than the filter uses
+            from probables import BloomFilter
+            from probables.hashes import default_fnv_1a
+            if self._nh is None:
+                self._nh = BloomFilter(self.est, self.fpr).number_hashes
+            hs = (self.hf or default_fnv_1a)(key, self._nh + 3)
+            ctx.call(self.noexc, o.add_alt, hs, force)
+            self.feats.add("add_alt_longer_list")
+        else:
+            ctx.call(self.noexc, o.add, key, force)
         self.add_calls += 1
         eff = force or not present
         if eff:
@@ -170,7 +181,7 @@ class ExpandingDriver:
 
     def _reload(self, ch):
         ctx, o = self.ctx, self.obj
-        ch = ch % 3
+        ch = ch % 4
         K = self.R if self.rot else self.E
         if ch == 0:
             raw = bytes(o)
@@ -189,10 +200,16 @@ class ExpandingDriver:
             else:
                 with open(p, "wb") as fh:
                     ctx.call(self.noexc, o.export, fh)
+            kw = {}
+            if ch == 3:
+                # load-or-create idiom: explicit sizing arguments given together with an existing file - the documented
+                # initialisation order says the file wins
+                kw = {"est_elements": self.est + 3, "false_positive_rate": 0.25}
+                self.feats.add("reload_with_conflicting_params")
             if self.rot:
-                new = ctx.call(self.noexc, K, filepath=p, max_queue_size=self.q, hash_function=self.hf)
+                new = ctx.call(self.noexc, K, filepath=p, max_queue_size=self.q, hash_function=self.hf, **kw)
             else:
-                new = ctx.call(self.noexc, K, filepath=p, hash_function=self.hf)
+                new = ctx.call(self.noexc, K, filepath=p, hash_function=self.hf, **kw)
         self.obj = new
         self.feats.add("reload")
         if self.model[-1] in (self.est, self.est - 1):
@@ -260,7 +277,7 @@ def case_strategy(tier, rot, max_ops=80):
     base = [st.tuples(st.just("new")), st.tuples(st.just("new")), st.tuples(st.just("new")),
             st.tuples(st.just("dup"), i, st.booleans()), st.tuples(st.just("forced"), i, st.booleans()),
             st.tuples(st.just("probe"), i), st.tuples(st.just("bulk"), st.integers(0, 400)),
-            st.tuples(st.just("reload"), st.integers(0, 2))]
+            st.tuples(st.just("reload"), st.integers(0, 3))]
     rare = [st.tuples(st.just("push"))] + ([st.tuples(st.just("pop"))] if rot else [])
 
     @st.composite
